@@ -95,8 +95,43 @@ def run(ctx):
                               {"stream": "api", "ops": ops})
                 break
         ctx.cov["ledger"] = {"data_ids_handed": nh, "destroy_hook_calls": nd}
+        # nlopt_optimize with the hooks installed: the internal temporary objects (maximize / memoize / elimination wrappers, default
+        # and copied local optimizers, MMA dual) must never invoke the user's hooks, and after destroying everything each pointer
+        # handed in (and each clone returned by the copy hook) has been released exactly once
+        from .. import problems, swrap
+        A = problems.Algs(ctx.alg)
+        rng2 = random.Random(ctx.seed * 97 + 15)
+        ps = []
+        for nm in problems.ALL:
+            for rep in range(6 if ctx.thorough else 2):
+                p = problems.gen_problem(rng2, A, alg_name=nm, box=rng2.choice(["fixed", "fixed", "finite"]), maxeval=rng2.choice([5, 20]), with_constraints=(rep % 2 == 0))
+                p["munge"] = 1
+                if rng2.random() < 0.5:
+                    p["copy"] = 1
+                if rng2.random() < 0.3:
+                    p["runs"] = 2
+                ps.append(p)
+        runs, _ = swrap.run_specs(bdir, [problems.to_line(p) for p in ps])
+        seen = set()
+        nled = 0
+        for r in runs:
+            led = getattr(r, "ledger", None)
+            if getattr(r, "part", 1) == 1:
+                ctx.case(r.spec)
+            if not led:
+                continue
+            nled += 1
+            alg = A.name(int(swrap.kvs(r.spec).get("alg", -1)))
+            for key, cause in (("hook_calls_inside_optimize", "user hook invoked by an internal copy during nlopt_optimize"),
+                               ("unreleased", "data pointer never released"), ("released_too_often", "data pointer released more than once"),
+                               ("unknown_released", "destroy hook called with a pointer that was never handed in")):
+                if int(led.get(key, "0")) != 0 and (alg, key) not in seen:
+                    seen.add((alg, key))
+                    ctx.violation({"alg": alg, "cause": cause}, "%s: %s (%s=%s; %s)" % (alg, cause, key, led.get(key), " ".join("%s=%s" % kv for kv in led.items())),
+                                  {"stream": "run", "spec": r.spec})
+        ctx.corr["nlopt_optimize with hooks installed"] = {"runs_with_ledger": nled}
         ctx.sample({"history": hists[-1]})
         ctx.sample({"history": hists[0][:12]})
     ctx.assumptions += ["hooks are installed right after creation and stay installed (the property's premise); a failing copy hook is outside C15's quantifier (covered as a fault in C18)",
-                        "internal temporary copies made during nlopt_optimize are checked by the wrapper-layer stream (C13/C07), not here"]
+                        "the ledger of the optimize runs is kept by the harness (harness/run.c, spec key munge=1)"]
     return ctx.finish(level="proof", extra_cov={"rule": "a case = one API call of a hooked history; distinct by op text"})
